@@ -29,14 +29,21 @@
      Wake         a stall ends            Kill   the idle shell process dies between two calls
    The shell is fast: ShellRun has priority over every other action.
 
+   The shell process has STATE OF ITS OWN that outlives a command: its working directory `cwd` and its
+   exported variable `env` (0 = as the shell was started, k = set by command k).  A command may be issued with a
+   working directory and/or an environment (`attr[k].pre`); the framing puts `cd ...; export ...;` in front of
+   it.  As coded this preamble runs in a child `sh -c '...'`, so the shell's own state never changes
+   (PreambleInShell = FALSE); the output shape "probe" prints the directory and the variable the command sees,
+   so FreshEquivalence also says that no command observes what an earlier command's preamble did.
+
    Implementation variant (constants): as coded today  FallbackShell = FALSE (the fallback executes the
    words of the command line without a shell: `2>&1` becomes an argument, stderr is lost),
    CloseOnFailure = FALSE (a shell whose command timed out is kept and reused), FallbackOnTimeout = TRUE.
    The proposed repair is TRUE / TRUE / FALSE.                                                         *)
 EXTENDS Naturals, Sequences, FiniteSets, TLC
 
-CONSTANTS N, Shapes, Statuses, AllowTimeout, AllowKill,
-          FallbackShell, CloseOnFailure, FallbackOnTimeout
+CONSTANTS N, Shapes, Statuses, Pres, AllowTimeout, AllowKill,
+          FallbackShell, CloseOnFailure, FallbackOnTimeout, PreambleInShell
 
 VARIABLES attr, pc, ret, runs, garbled, sh, buf, killed, hist
 vars == <<attr, pc, ret, runs, garbled, sh, buf, killed, hist>>
@@ -50,20 +57,33 @@ E(k, i) == <<"e", k, i>>
 MA(k) == <<"ma", k, 0>>
 MB(k) == <<"mb", k, 0>>
 ST(s) == <<"st", s, 0>>
+CW(d) == <<"cw", d, 0>>       \* "the working directory is d"   (0 = where the shell was started, k = workdir of call k)
+EV(x) == <<"ev", x, 0>>       \* "the variable has value x"      (0 = unset, k = value given by call k)
+
+HasWd(k) == attr[k].pre \in {"wd", "both"}
+HasEnv(k) == attr[k].pre \in {"env", "both"}
+\* what command k sees when the surrounding shell has directory d and variable x
+SeenCwd(k, d) == IF HasWd(k) THEN k ELSE d
+SeenEnv(k, x) == IF HasEnv(k) THEN k ELSE x
 
 OutOf(shape, k) ==
   CASE shape = "empty" -> <<>>
     [] shape = "nonl"  -> <<O(k, 1)>>                                  \* no trailing newline
     [] shape = "multi" -> <<O(k, 1), NL, E(k, 2), O(k, 3), NL>>        \* several writes, one of them to stderr
     [] shape = "mlike" -> <<ML, NL, O(k, 1)>>                          \* marker-like line, then text without newline
-Out(k) == OutOf(attr[k].shape, k)
+    [] shape = "probe" -> <<>>                                         \* see OutIn: prints what it sees
+\* output of command k when it runs in a shell whose own directory / variable are d / x
+OutIn(k, d, x) == IF attr[k].shape = "probe" THEN <<CW(SeenCwd(k, d)), NL, EV(SeenEnv(k, x))>>
+                  ELSE OutOf(attr[k].shape, k)
+\* in a fresh process (directory and environment of the connector itself)
+Out(k) == OutIn(k, 0, 0)
 StdoutOnly(k) == SelectSeq(Out(k), LAMBDA t : t[1] # "e")
 Marker(k) == <<MA(k), MB(k), ST(attr[k].status), NL>>
-Stream(k) ==
-  CASE attr[k].slow = "no"  -> Out(k) \o Marker(k)
-    [] attr[k].slow = "pre" -> <<STALL>> \o Out(k) \o Marker(k)
-    [] attr[k].slow = "mid" -> IF Out(k) = <<>> THEN <<STALL>> \o Marker(k)
-                               ELSE <<Head(Out(k)), STALL>> \o Tail(Out(k)) \o Marker(k)
+StreamOf(k, out) ==
+  CASE attr[k].slow = "no"  -> out \o Marker(k)
+    [] attr[k].slow = "pre" -> <<STALL>> \o out \o Marker(k)
+    [] attr[k].slow = "mid" -> IF out = <<>> THEN <<STALL>> \o Marker(k)
+                               ELSE <<Head(out), STALL>> \o Tail(out) \o Marker(k)
 
 RECURSIVE StripL(_)
 StripL(s) == IF s # <<>> /\ Head(s) = NL THEN StripL(Tail(s)) ELSE s
@@ -84,7 +104,8 @@ Obs(r) == <<r.kind, r.out, r.st>>
 Expected(k) == IF attr[k].slow # "no" THEN <<"timeout", <<>>, 0>>
                ELSE <<"ok", Strip(Out(k)), attr[k].status>>
 
-NewShell == [closed |-> FALSE, dead |-> FALSE, inq |-> <<>>, cur |-> 0, rem |-> <<>>, stalled |-> FALSE, pipe |-> <<>>]
+NewShell == [closed |-> FALSE, dead |-> FALSE, inq |-> <<>>, cur |-> 0, rem |-> <<>>, stalled |-> FALSE, pipe |-> <<>>,
+             cwd |-> 0, env |-> 0]
 NoShell == [NewShell EXCEPT !.closed = TRUE, !.dead = TRUE]
 Discard(s) == NoShell
 CanRun(s) == ~s.dead /\ ~s.stalled /\ (s.cur # 0 \/ s.inq # <<>>)
@@ -92,7 +113,8 @@ Finished(k) == pc[k] \in {"returned", "raised"}
 Reading == {k \in Cmd : pc[k] = "reading"}
 
 TS == IF AllowTimeout THEN {<<FALSE, "no">>, <<TRUE, "no">>, <<TRUE, "pre">>, <<TRUE, "mid">>} ELSE {<<FALSE, "no">>}
-Attrs == {[shape |-> s, status |-> x, tmo |-> ts[1], slow |-> ts[2]] : s \in Shapes, x \in Statuses, ts \in TS}
+Attrs == {[shape |-> s, status |-> x, tmo |-> ts[1], slow |-> ts[2], pre |-> p] :
+             s \in Shapes, x \in Statuses, ts \in TS, p \in Pres}
 
 H(a, k, n) == hist' = Append(hist, [a |-> a, k |-> k, n |-> n])
 
@@ -142,13 +164,17 @@ ShellRun ==
   /\ CanRun(sh)
   /\ LET starting == sh.cur = 0
          k == IF starting THEN Head(sh.inq) ELSE sh.cur
-         rem0 == IF starting THEN Stream(k) ELSE sh.rem
+         rem0 == IF starting THEN StreamOf(k, OutIn(k, sh.cwd, sh.env)) ELSE sh.rem
+         \* the `cd` / `export` of the preamble: in a child process as coded, in the shell itself otherwise
+         cwd1 == IF starting /\ PreambleInShell THEN SeenCwd(k, sh.cwd) ELSE sh.cwd
+         env1 == IF starting /\ PreambleInShell THEN SeenEnv(k, sh.env) ELSE sh.env
          idx == IndexFrom(rem0, STALL, 1)
          emitted == IF idx = 0 THEN rem0 ELSE SubSeq(rem0, 1, idx - 1)
          rest == IF idx = 0 THEN <<>> ELSE SubSeq(rem0, idx + 1, Len(rem0))
      IN /\ sh' = [sh EXCEPT !.inq = IF starting THEN Tail(@) ELSE @,
                             !.cur = IF idx = 0 THEN 0 ELSE k,
-                            !.rem = rest, !.stalled = (idx # 0), !.pipe = @ \o emitted]
+                            !.rem = rest, !.stalled = (idx # 0), !.pipe = @ \o emitted,
+                            !.cwd = cwd1, !.env = env1]
         /\ runs' = IF starting THEN [runs EXCEPT ![k] = @ + 1] ELSE runs
         /\ H("run", k, 0)
   /\ UNCHANGED <<attr, pc, ret, garbled, buf, killed>>
@@ -215,6 +241,8 @@ FreshEquivalence == \A k \in Cmd : Finished(k) => Obs(ret[k]) = Expected(k)
 OwnOutput == \A k \in Cmd : pc[k] = "returned" => ret[k].out = Strip(Out(k)) /\ ret[k].st = attr[k].status
 \* a command that is not slow never times out
 NoSpuriousTimeout == \A k \in Cmd : pc[k] = "raised" => attr[k].slow # "no"
+\* a command's working directory / environment never become the session's
+ShellStateUnchanged == sh.cwd = 0 /\ sh.env = 0
 \* exactly once
 ReturnedOnce == \A k \in Cmd : pc[k] = "returned" => runs[k] = 1
 NeverTwice == \A k \in Cmd : runs[k] <= 1
